@@ -44,6 +44,8 @@ func runC13(r *hk.Run) {
 	h2Pairs(r, rng, r.Scale(130, 1200))
 	h3Pairs(r, rng, r.Scale(100, 800))
 	h2AbortPairs(r, rng, r.Scale(40, 400))
+	h1AbortPairs(r, rng, r.Scale(25, 250))
+	h3AbortPairs(r, rng, r.Scale(25, 250))
 }
 
 // ---------- (a) line cases ----------
